@@ -149,6 +149,8 @@ checks = []
 na = []
 # additions of the seventh seeding round (one harness per input class; see DESIGN.md section 0b)
 ROUND7 = {
+ "C03": "Also by execution: structs whose outer field shadows (by Go name or by tag, 4 types, before/after) a field of a struct embedded at depth 1..2; the engine's encoding/json model applies the dominant-field rule (HC03_execShadowed). One class is a listed known finding (the shadowed property is declared twice in the interface).",
+ "C04": "Also by evaluation: a table with two jsonb columns over ordered pairs of 9 nested slice/fixed-array shapes of int or string; each column's own CHECK is evaluated on the documents Go emits and on documents wrong by one kind or one fixed length (HC04_execColumns).",
  "C05": "Also decided by execution: the generated SelectAllXs/ScanXs/ScanX functions of a primary or link table with a jsonb column (5 column types) run in the engine against an in-memory stand-in of database/sql holding 2 (3) symbolic rows; the items returned must be deeply equal to the rows stored (HC05_execSelectAll).",
  "C07": "Also: cmd.Config.run itself is executed on 2 (3) real source files with TypeScript and Dart actions, under every order of the Config map and every completion order of the goroutines it starts (thorough: <=1 preemption), against the sequential run in sorted file order (HC07_configRun; formatters absent); httpapi.ParseEcho on a handler reading 2..3 (4) query parameters, names drawn with repetition, under every map order (HC07_echoQueryParams).",
  "C08": "Also: exactly one CREATE TABLE per struct of the analysed file, for a table of 1..3 (4) distinct fields in any order from a catalogue including Valid bool, a foreign key and a nullable wrapper (HC08_everyStructIsATable).",
